@@ -47,6 +47,10 @@ def message_pool(remote_as, r=None):
         ('open_nocaps', frame(1, open_body(remote_as, 180))),
         ('open_hold0', frame(1, open_body(remote_as, 0, caps=std_caps(remote_as)))),
         ('open_hold3', frame(1, open_body(remote_as, 3, caps=std_caps(remote_as, as4=False)))),
+        # hold times that are not multiples of 3 (the keepalive period H/3 is not a whole number of seconds)
+        ('open_hold4', frame(1, open_body(remote_as, 4, caps=std_caps(remote_as)))),
+        ('open_hold8', frame(1, open_body(remote_as, 8))),
+        ('open_hold20', frame(1, open_body(remote_as, 20, caps=std_caps(remote_as)))),
         ('open_hold1', frame(1, open_body(remote_as, 1, caps=std_caps(remote_as)))),
         ('open_hold2', frame(1, open_body(remote_as, 2))),
         ('open_hold65535', frame(1, open_body(remote_as, 65535, caps=std_caps(remote_as)))),
@@ -56,6 +60,11 @@ def message_pool(remote_as, r=None):
                                          + cap(65, struct.pack('!I', (remote_as + 7) & 0xffffffff)))),
         ('open_as4_only_in_cap', frame(1, struct.pack('!BHHIB', 4, 64999, 90, 0x0a000002, 8)
                                         + cap(65, struct.pack('!I', remote_as)))),
+        # capabilities naming address families / values the agent has no name for: they are ignored, the OPEN stands
+        ('open_addpath_unknown_family', frame(1, open_body(remote_as, 90, caps=std_caps(remote_as) + cap(69, bytes([0, 1, 132, 3]))))),
+        ('open_addpath_action0', frame(1, open_body(remote_as, 90, caps=std_caps(remote_as) + cap(69, bytes([0, 1, 1, 0, 0, 2, 1, 4]))))),
+        ('open_llgr_extnh_unknown', frame(1, open_body(remote_as, 90, caps=std_caps(remote_as) + cap(71, bytes([0, 99, 9, 0, 0, 0, 10]) * 2)
+                                                      + cap(5, bytes([0, 99, 0, 9, 0, 7]))))),
         ('open_trunc_cap', frame(1, open_body(remote_as, 90, caps=b'\x02\x06\x41\x04\x00\x00'))),
         ('open_badopt', frame(1, open_body(remote_as, 90, caps=b'\x01\x00'))),
         ('open_short', frame(1, b'\x04\x00\x01')),
@@ -80,6 +89,15 @@ def message_pool(remote_as, r=None):
         ('notif_cease', frame(3, b'\x06\x02')),
         ('notif_hold', frame(3, b'\x04\x00\xaa\xbb')),
         ('notif_short', frame(3, b'\x06')),
+        # every error code the constants know (1..7) and codes they do not (0, 8, 255), sub-codes known and unknown
+        ('notif_code0', frame(3, b'\x00\x00')),
+        ('notif_hdr', frame(3, b'\x01\x02\x00\x13')),
+        ('notif_update', frame(3, b'\x03\x0b')),
+        ('notif_fsm', frame(3, b'\x05\x00')),
+        ('notif_cap', frame(3, b'\x07\x01')),
+        ('notif_code8', frame(3, b'\x08\x00')),
+        ('notif_code255', frame(3, b'\xff\xff')),
+        ('notif_cease_sub9', frame(3, b'\x06\x09')),
         ('rr', frame(5, b'\x00\x01\x00\x01')),
         ('rr_cisco', frame(128, b'\x00\x01\x00\x01')),
         ('rr_bad', frame(5, b'\x00\x01\x00')),
